@@ -118,6 +118,17 @@ CHECKS = {
                      'may move: state, counters, CHILD_SAs, deadlines, cached response, table, SAD, netlink log; no reply except the '
                      'stored IKE_SA_INIT response in INIT_RES_SENT.',
                 note='byte x bit sweeps are exhaustive per representative message; IKE_SA_INIT requests are judged at IKE_SA level'),
+    'C17': dict(level='fault_enumeration', design='3 C17',
+                technique='three-host simulation of the real main_loop; Hypothesis-generated interleavings of hostile datagrams '
+                          '(raw, mutated corpus, structural grid, protocol oddities, correctly MACed malformed bodies from the '
+                          'reference codec), XFRM events and injected sendto / netlink failures with a legitimate session; complete '
+                          'sweep of the C06 grid as IKE_SA_INIT requests; fault enumeration at call indices; oracle = no exception '
+                          'out of main_loop, executed-line budget per iteration, fresh legitimate negotiation afterwards',
+                text='Nothing leaves main_loop, every iteration stays within 300000 + 100*octets executed lines, and after every '
+                     'hostile sequence a fresh negotiation with the legitimate peer establishes mirror-image SAs; 88 fault-index '
+                     'cases, 192 trigger-pair cases, ~33000 grid datagrams per run.',
+                note='bounded time is a line budget, not wall-clock; the budget constant covers the single loop bounded by a '
+                     '16-bit count (DELETE)'),
 }
 
 NOT_YET = 'check not built yet in this session (planned, see DESIGN.md section 8)'
